@@ -1147,7 +1147,7 @@ class Client():
                                       ('status', self.respondent.status),
                                       ('reason', self.respondent.reason),
                                       ('headers', copy.copy(self.respondent.headers)),
-                                      ('body', self.respondent.body),
+                                      ('body', copy.copy(self.respondent.body)),
                                       ('data', self.respondent.data),
                                       ('request', request),
                                       ('errored', self.respondent.errored),
